@@ -582,6 +582,98 @@ def r11g(ctx, run):
                   "a switch over an optional of a pointer with %s must branch on the pointer being non-null to %r and otherwise to %r; found %s" % (desc, want_some, want_nil, why))
 
 
+def r11h(ctx, run):
+    """the arms of a switch that yields a value: every jump an arm (or the default arm) makes to the switch's exit block carries exactly the exit block's
+    one parameter, and an arm whose body always jumps (`Variant => { return 10; }`, type noeval - the checker keeps such an arm out of the common type,
+    R07.f) makes no jump to the exit at all: it has no value to carry, and Cranelift rejects a jump whose arguments do not match the block's parameters.
+    The arm loop and the default-arm statement of the Switch arm are evaluated from source for arm shapes value/jumping."""
+    from symint import SymInterp
+    from absint import Obj, Term, Variant, Panic, CannotEstablish, _Return
+    V = Variant
+    sfn = ctx.syn.fn("FunctionCompiler::compile_expr_with_args", "codegen/src/compiler/functions.rs")
+    arm = None
+    for m in synq.matches_on(sfn.body):
+        for h, p_, g, b, a in synq.match_table(m):
+            if h and h.endswith("Expr::Switch"):
+                arm = (p_, b, a)
+    if arm is None:
+        raise LookupError("Expr::Switch arm of compile_expr_with_args")
+    loops = [x for x in walk(arm[1]) if x.get("k") == "for" and canon(x["e"]) == "arm_blocks"]
+    defaults = [x for x in walk(arm[1]) if x.get("k") == "if" and x["c"].get("k") == "let" and canon(x["c"]["e"]) == "default" and "compile_and_cast_with_args" in canon(x["t"])]
+    if len(loops) != 1 or len(defaults) != 1:
+        raise LookupError("arm loop / default statement of the Switch arm: %d / %d" % (len(loops), len(defaults)))
+    i32 = V("Ty::IInt", {"0": 32})
+    noeval = V("Ty::AlwaysJumps")
+
+    class SI(SymInterp):
+        def eval(self, e, env):
+            if e.get("k") == "index" and canon(e["e"]) == "self.tys[self.loc]":
+                return self.tys.get(self.eval(e["i"], env), i32)
+            if e.get("k") == "assign" and e["l"].get("k") == "index":
+                return None
+            if e.get("k") in ("ref",) or (e.get("k") == "un" and e.get("op") in ("*", "&")):
+                return self.eval(e["e"], env)
+            if e.get("k") == "path" and "::" in e["p"] and e["p"] not in env and not e["p"].startswith("Ty::"):
+                return Term(e["p"])
+            return super().eval(e, env)
+
+        def binop(self, op, l, r, e):
+            if op in ("==", "!=") and isinstance(l, Variant) and isinstance(r, Variant):
+                return (l == r) == (op == "==")
+            return super().binop(op, l, r, e)
+
+        def default_method(self, recv, m_, args, e):
+            if isinstance(recv, Obj) and recv.name == "self":
+                if m_ in ("compile_and_cast_with_args", "compile_and_cast", "compile_expr", "compile_expr_with_args"):
+                    return self.vals.get(args[0])
+                if m_ == "compile_unreachable":
+                    self.events.append(("unreachable",))
+                    return None
+            if isinstance(recv, (Term, Obj)) or recv is None:
+                if m_ == "jump":
+                    self.events.append(("jump", args[0], len(args[1]) if isinstance(args[1], (list, tuple)) else None))
+                if m_ in ("is_none", "is_some"):
+                    return (recv is None) == (m_ == "is_none")
+                return Term(m_)
+            return super().default_method(recv, m_, args, e)
+    n = 0
+    for where, stmt in (("a regular arm", loops[0]), ("the default arm", defaults[0])):
+        for shape, jumping in (("yields a value", False), ("always jumps", True)):
+            body = Term("body")
+            it = SI(funcs={"Some": lambda i, a: a[0], "BlockArg::Value": lambda i, a: Term("arg"), "super::unwrap_sum_ty": lambda i, a: None, "unwrap_sum_ty": lambda i, a: None},
+                    macros={"format": lambda i, e, env: "fmt"})
+            it.tys = {body: noeval if jumping else i32}
+            it.vals = {body: None if jumping else Term("value")}
+            it.events = []
+            armo = Obj("arm", switch_arg=None, body=body)
+            from symint import Env
+            env = Env(None, {"self": Obj("self", builder=Term("builder"), func_writer=Term("fw"), switch_locals=Term("sl"), tys=Term("tys"), loc=Term("loc")), "sum_ty": Term("sum_ty"),
+                             "scrutinee_val": Term("scrutinee"), "arm_blocks": [(i32, Term("arm_block"), armo)], "default": armo, "exit_block": Term("exit"), "return_ty": i32,
+                             "return_ty_real": Term("I32"), "no_load": False})
+            key = "arm-exit:%s:%s" % (where, shape)
+            try:
+                try:
+                    it.eval(stmt, env)
+                except _Return:
+                    pass
+            except (Panic, CannotEstablish) as c:
+                run.finding(sfn.qual, key, sfn.file, stmt["ln"], "cannot establish what %s of a value-yielding switch that %s compiles to: %s" % (where, shape, getattr(c, "what", c)))
+                continue
+            n += 1
+            jumps = [ev for ev in it.events if ev[0] == "jump" and ev[1] == Term("exit")]
+            if jumping:
+                good = not jumps
+                why = "it jumps to the exit block with %s argument(s)" % ", ".join(str(j[2]) for j in jumps) if jumps else ""
+            else:
+                good = len(jumps) == 1 and jumps[0][2] == 1
+                why = "its jumps to the exit block: %s" % [j[2] for j in jumps]
+            run.check(good, sfn.site(stmt["ln"]), "%s that %s: %s" % (where, shape, "no jump to the exit" if jumping else "one jump to the exit carrying its value"), sfn.qual, key, sfn.file,
+                      stmt["ln"], "%s of a switch that yields a value, whose body %s: %s; the exit block has exactly one parameter, so Cranelift's verifier rejects the function - a "
+                      "well-typed program (`x := switch v in e { A => { return 1; }, B => 2 };`) does not compile" % (where, shape, why))
+    if n < 4:
+        raise LookupError("switch arm shapes evaluated: %d" % n)
+
+
 def rules(ctx):
     return [
         Rule("R11.a", "structural matches on the scrutinee type agree with the distinct-transparent predicate that admitted it", 4, r11a),
@@ -590,5 +682,6 @@ def rules(ctx):
         Rule("R11.e", "the tag an arm's type is mapped to is the tag its producer wrote: get_tagged_union_discrim evaluated (nominally different same-shape sides included)", 11, r11e),
         Rule("R11.f", "the side of an error union a value is stored on is the side its declared type names (cast_into_memory evaluated; explicit casts of distincts fall back to the type underneath)", 5, r11f),
         Rule("R11.g", "the nullable-pointer form of switch handles every arm shape the checker accepts (both arms, one arm + default, default only) and sends non-null to the payload arm, null to the nil arm, a missing side to the default block", 12, r11g),
+        Rule("R11.h", "arms of a value-yielding switch: a jump to the exit carries the exit's one parameter, an arm that always jumps makes none (arm loop and default statement evaluated)", 4, r11h),
         Rule("R11.c", "dispatch wiring: I8 tag at discriminant_offset, entry per arm keyed by its variant, fallback/fault, nullable form, argument binding", 9, r11c),
     ]
